@@ -23,7 +23,7 @@ use p2panda_net::gossip::verif_c29::{self, Probe, ProbeEvent, VerifGuard};
 use p2panda_net::gossip::{Gossip, GossipHandle};
 use p2panda_net::AddressBook;
 
-const MAX_T: usize = 4;
+const MAX_T: usize = 8;
 const WAIT: Duration = Duration::from_secs(5);
 
 thread_local! { static TID: Cell<Option<usize>> = const { Cell::new(None) }; }
@@ -881,6 +881,112 @@ fn race_streams(w: &mut World, rounds: usize) -> Case {
     Case { req: "race streams".into(), ans: if bad.is_empty() && fails.is_empty() { "ok".into() } else { "bad".into() }, nt: true, fails, steps: rounds }
 }
 
+/// Free-running: a dead guard is never revived. N threads call `try_clone` in a tight loop on a guard whose
+/// counter is 0 (its only counting reference was dropped): every call must return None.
+fn dead_guard_stress(w: &mut World, iters: usize) -> Case {
+    w.set_parking(false, false);
+    let topic = w.fresh_topic();
+    let actor = w.rt.block_on(w.probe.spawn_actor());
+    let root = VerifGuard::new(topic, actor.clone());
+    let nthreads = 6;
+    let observers: Vec<VerifGuard> = (0..nthreads).map(|_| root.clone_without_increment()).collect();
+    let watch = root.clone_without_increment();
+    drop(root); // counter 1 -> 0, Unsubscribe sent
+    let start = Arc::new(AtomicUsize::new(0));
+    let mut joins = vec![];
+    for obs in observers {
+        let start = start.clone();
+        joins.push(std::thread::spawn(move || {
+            start.fetch_add(1, Ordering::SeqCst);
+            while start.load(Ordering::SeqCst) < nthreads {
+                std::hint::spin_loop();
+            }
+            let mut revived = 0usize;
+            for _ in 0..iters {
+                if let Some(g) = obs.try_clone_counting() {
+                    revived += 1;
+                    drop(g);
+                }
+            }
+            revived
+        }));
+    }
+    let revived: usize = joins.into_iter().map(|j| j.join().unwrap_or(0)).sum();
+    let counter = watch.counter();
+    actor.stop(None);
+    let mut fails = vec![];
+    if revived > 0 || counter != 0 {
+        fails.push(("dead-guard-revived".to_string(), format!("{nthreads} threads x {iters} try_clone() calls on a guard whose counter is 0: {revived} calls returned a counting guard (every call must return None); counter afterwards {counter}")));
+    }
+    w.set_parking(true, false);
+    Case { req: "race deadguard".into(), ans: if fails.is_empty() { "ok".into() } else { "bad".into() }, nt: true, fails, steps: iters }
+}
+
+/// Free-running: join, leave (the entry in `senders` is now a dead guard, counter 0), then 8 threads call stream()
+/// at the same moment. All of them run `try_clone` on the dead guard concurrently: none may revive it — no
+/// returned handle may belong to the left generation, and the log must be S,U,S and end S,U,S,U.
+fn rejoin_race(w: &mut World, rounds: usize) -> Case {
+    w.set_parking(false, false);
+    let mut fails: Vec<(String, String)> = vec![];
+    let n = MAX_T;
+    for r in 0..rounds {
+        let topic = w.fresh_topic();
+        let first = match w.start(0, Cmd::Stream(topic)) {
+            Ok(Pos::Done(Done::Handle(s))) => s,
+            other => {
+                fails.push(("hang".into(), format!("round {r}: first stream(): {other:?}")));
+                break;
+            }
+        };
+        let left_cell = w.pool.lock().unwrap()[first].as_ref().unwrap().verif_counter_cell();
+        let _ = w.start(0, Cmd::Drop(first));
+        {
+            let mut st = w.ctl.m.lock().unwrap();
+            for t in 0..n {
+                st.done[t] = None;
+            }
+        }
+        for t in 0..n {
+            let _ = w.cmd[t].send(Cmd::Stream(topic));
+        }
+        let mut slots = vec![];
+        let mut hung = false;
+        for t in 0..n {
+            match w.wait(t, None) {
+                Ok(Pos::Done(Done::Handle(s))) => slots.push(s),
+                other => {
+                    fails.push(("hang".into(), format!("round {r}: concurrent stream() of worker {t}: {other:?}")));
+                    hung = true;
+                }
+            }
+        }
+        if hung {
+            break;
+        }
+        let revived = slots.iter().filter(|s| Arc::ptr_eq(&w.pool.lock().unwrap()[**s].as_ref().unwrap().verif_counter_cell(), &left_cell)).count();
+        let ev1 = w.events(topic);
+        for (i, s) in slots.iter().enumerate() {
+            let _ = w.start(i % n, Cmd::Drop(*s));
+        }
+        let ev2 = w.events(topic);
+        let dead_counter = left_cell.load(Ordering::SeqCst);
+        if fails.is_empty() {
+            if revived > 0 {
+                fails.push(("handle-of-left-session".into(), format!("round {r}: join, leave, then {n} simultaneous stream() calls: {revived} returned handle(s) count on the guard of the session that was left (messages then: {}, after dropping everything: {})", fmt_events(&ev1), fmt_events(&ev2))));
+            } else if dead_counter != 0 {
+                fails.push(("dead-guard-revived".into(), format!("round {r}: counter of the left session's guard is {dead_counter} after everything was dropped")));
+            } else if ev1 != vec![true, false, true] || ev2 != vec![true, false, true, false] {
+                fails.push(("rejoin-log".into(), format!("round {r}: join, leave, {n} simultaneous stream() calls: messages {} (expected S,U,S), after dropping everything {} (expected S,U,S,U)", fmt_events(&ev1), fmt_events(&ev2))));
+            }
+        }
+        if !fails.is_empty() {
+            break;
+        }
+    }
+    w.set_parking(true, false);
+    Case { req: "race rejoin".into(), ans: if fails.is_empty() { "ok".into() } else { "bad".into() }, nt: true, fails, steps: rounds }
+}
+
 /// Stress without schedule points: bare guards hammered by 8 threads.
 fn hammer_guards(w: &mut World, rng: &mut Rng, rounds: usize) -> Case {
     w.set_parking(false, false);
@@ -961,6 +1067,10 @@ fn main() {
         let req = v["request"].as_str().unwrap().to_string();
         let c = if req.starts_with("hammer") {
             hammer_guards(&mut w, &mut Rng::new(1), 2000)
+        } else if req.starts_with("race deadguard") {
+            dead_guard_stress(&mut w, 200000)
+        } else if req.starts_with("race rejoin") {
+            rejoin_race(&mut w, 2000)
         } else if req.starts_with("race") {
             race_streams(&mut w, 500)
         } else {
@@ -1021,6 +1131,10 @@ fn main() {
     if !HUNG.load(Ordering::SeqCst) {
         let c = race_streams(&mut w, hammer * 10);
         emit(&mut out, c, "race-streams");
+        let c = rejoin_race(&mut w, hammer * 20);
+        emit(&mut out, c, "race-rejoin");
+        let c = dead_guard_stress(&mut w, 20000);
+        emit(&mut out, c, "race-dead-guard");
     }
     for _ in 0..hammer {
         if HUNG.load(Ordering::SeqCst) {
@@ -1033,7 +1147,7 @@ fn main() {
     out.extra.insert("senders_lock_probes".into(), w.lock_probes.into());
     out.extra.insert("senders_lock_found_held".into(), (w.lock_memo.values().filter(|b| !**b).count() as u64).into());
     out.finish(
-        "one case = one schedule of atomic steps (lookup / subscribe / insert / clone / decrement / send-Unsubscribe) realised on the real Gossip::stream, GossipHandle::clone and TopicDropGuard::drop with real OS threads parked at the schedule points; exhaustive: every interleaving of every pair of thread programs over {stream, clone, drop} up to the length bound, for 4 initial handle distributions; random: 3 threads; race: two free-running threads calling stream() for one topic simultaneously, no schedule points; hammer: 8 threads on bare guards without schedule points. Whether a look-up may proceed while another thread is parked inside stream() is asked of the real senders lock, not assumed. non-trivial = a counter drops to zero while another thread is inside stream(), or a stream() lookup happens while an Unsubscribe is still to be sent",
+        "one case = one schedule of atomic steps (lookup / subscribe / insert / clone / decrement / send-Unsubscribe) realised on the real Gossip::stream, GossipHandle::clone and TopicDropGuard::drop with real OS threads parked at the schedule points; exhaustive: every interleaving of every pair of thread programs over {stream, clone, drop} up to the length bound, for 4 initial handle distributions; random: 3 threads; race: two free-running threads calling stream() for one topic simultaneously, and join-leave-then-8-simultaneous-stream() rounds (concurrent try_clone on a dead guard), no schedule points; hammer: 8 threads on bare guards without schedule points. Whether a look-up may proceed while another thread is parked inside stream() is asked of the real senders lock, not assumed. non-trivial = a counter drops to zero while another thread is inside stream(), or a stream() lookup happens while an Unsubscribe is still to be sent",
         false,
     );
     std::process::exit(0);
